@@ -701,7 +701,7 @@ func init() {
 			fr.i.stubsUsed["fasthttp.normalizePath=skip"] = true
 			// dst = append(dst[:0], src...) without normalisation
 			dst := a[0].([]value)
-			return fr.i.appendCells(dst[:0], a[1].([]value))
+			return fr.i.appendCells(dst[:0], a[1].([]value), nil)
 		}
 		return notHandled{}
 	}
